@@ -241,6 +241,8 @@ inline void check_subject_chain(int prop, const Edge& e, const Parsed& P, bool o
 }
 
 inline void m02(const Edge& e, const Parsed& P) {
+	// deactivation discards what was waiting: a request must not survive into the next activation
+	if (!e.terminal && (e.op.k == OP_EXIT || (e.op.k == OP_LOAD && e.op.a == N)) && !tx_empty(e.post.req)) flag(C02, "request-survives-deactivation", e, "request %d>%d is still outstanding on the deactivated machine", e.post.req.o == NONE8 ? -1 : e.post.req.o, e.post.req.d);
 	// (a) a request never changes activity at the moment it is made
 	for (int i = 0; i < e.nev; ++i) { const Ev& v = e.tr[i]; if (v.kind == EV_MARK) break; if (v.kind == EV_CHANGE && !v.r) flag(C02, "request-changed-activity", e, "ev %d", i); }
 	if (e.op.k == OP_CHANGE || e.op.k == OP_CHANGEW) {
@@ -415,7 +417,7 @@ inline void m06(const Edge& e, const Parsed& P) {
 	TxS req = e.initial ? TX_NONE : e.pre.req;
 	if (e.op.k == OP_IMM) req = mkreq(NONE8, e.op.a, 0);
 	if (e.op.k == OP_IMMW) req = mkreq(NONE8, e.op.a, e.op.b);
-	if (e.op.k == OP_LOAD) req = TX_NONE;
+	if (e.op.k == OP_LOAD && e.op.a != N) req = TX_NONE;   // loading an activity drops the waiting request first; deactivation (exit, load of 'inactive') drops it after the exit callbacks
 	bool reqKnown = true, reqTagKnown = true;
 	int round = -1;
 	for (int i = 0; i < e.nev; ++i) {
